@@ -228,7 +228,7 @@ class Inference(object):
 
         Returns
         -------
-        None
+        dict: The hard evidence {auxiliary child: 0} that stands for the virtual evidence.
 
         References
         ----------
@@ -237,9 +237,14 @@ class Inference(object):
         self._check_virtual_evidence(virtual_evidence)
 
         bn = self.model.copy()
+        virt_evidence = {}
         for cpd in virtual_evidence:
             var = cpd.variables[0]
             new_var = "__" + str(var)
+            # The auxiliary child must be a new node.
+            while new_var in bn.nodes():
+                new_var = "_" + new_var
+            virt_evidence[new_var] = 0
             bn.add_edge(var, new_var)
             values = compat_fns.get_compute_backend().vstack(
                 (cpd.values, 1 - cpd.values)
@@ -255,6 +260,7 @@ class Inference(object):
             bn.add_cpds(new_cpd)
 
         self.__init__(bn)
+        return virt_evidence
 
     @staticmethod
     def _get_virtual_evidence_var_list(virtual_evidence):
